@@ -22,7 +22,8 @@ CONSTANTS MaxLen,      \* longest element sequence
           Emit         \* print every case with its reference answer (spec -> code)
 
 \* ("...falsy": instances are falsy / claim length 0 although they have members -- __bool__ and __len__ belong to the value)
-Mappings  == {"dict", "odict", "mproxy", "cmap", "cmapfalsy"}
+\* ("dictget": a dict subclass whose __getitem__ wraps what it stores: the pairs of a mapping are what items() yields)
+Mappings  == {"dict", "odict", "mproxy", "cmap", "cmapfalsy", "dictget"}
 \* ("...child": the class inherits its first fields from a base of the same flavour and declares the rest itself)
 \* ("slotsonlychild": a subclass, without __slots__ of its own, of a slots-only class; "slotsonlygrand": a subclass that adds slots;
 \*  "plainchild": annotated fields inherited from a base, and a member of its own whose annotation cannot be evaluated)
